@@ -1,6 +1,8 @@
 import OxyModel.Proofs.CBreaker.Machine
 import OxyModel.Proofs.CBreaker.Eval
 import OxyModel.Proofs.CBreaker.Window
+import OxyModel.Proofs.Hist.Ops
+import OxyModel.Proofs.Hist.Composite
 
 /-!
 # C18 — the breaker trips exactly when its condition holds; side effects fire once
@@ -260,5 +262,280 @@ example : recsAfter ⟨1000, 1000, 100, .cmp .ge .ner (.float 5 10)⟩ Brk.init 
 example : (eval (reader (T0 + 5) []) (.cmp .ge .ner (.float 5 10)) ((Metrics.init.record T0 200).record (T0 + 5) 502)).2 = true ∧
     (eval (reader (T0 + 5) []) (.cmp .gt .ner (.float 5 10)) ((Metrics.init.record T0 200).record (T0 + 5) 502)).2 = false := by
   decide
+
+
+/-! ## The latency histogram inside the model
+
+`Model/Hist.lean` follows `hdrhistogram-go v1.1.2` (`hdr.go`), `memmetrics/histogram.go` and `roundtrip.go` branch by
+branch; `Model/CBreakerHist.lean` puts it next to the breaker (`CB.Brk × Hist.Rolling`).  Helper lemmas:
+`Proofs/Hist/{Index,Counts,Quantile,Rolling,Ops,Composite}.lean`.  The one float step of the code,
+`countAtPercentile := int64(q/100·float64(total) + 0.5)`, is **not** modelled: the theorems speak about an arbitrary
+count `k` (`1 ≤ k ≤ total`) or about its exact rational reading `Hist.countAtQ`; that the float value equals the rational
+one is assumed (the driver computes it in `Float`, and the correspondence run compares the resulting quantiles with the
+implementation's on every completion). -/
+section Histogram
+open Hist
+
+/-- **(a) what a histogram holds**: after any history of `RecordValue` / `Reset` on a new histogram, `counts` has its
+    `countsLen = 3328` entries, `counts[i]` is the number of values recorded since the last reset that `countsIndexFor`
+    sends to `i`, `totalCount` is the number of those in range — which are exactly the values below 2^32 (µs: about 71.6
+    min; larger ones are silently dropped) — and merging two such histograms adds the counts position by position and the
+    totals. -/
+theorem C18_hist_counts (ops : List HOp) :
+    (runOps ops).counts.size = countsLen ∧
+    (∀ i, i < countsLen → (runOps ops).counts.getD i 0 = (sinceOps ops).countP (fun v => countsIndexFor v = i)) ∧
+    (runOps ops).total = (sinceOps ops).countP (fun v => countsIndexFor v < countsLen) ∧
+    (∀ v, countsIndexFor v < countsLen ↔ v < 2 ^ 32) ∧
+    ∀ ops2 : List HOp,
+      (∀ i, ((runOps ops).merge (runOps ops2)).counts.getD i 0 = (runOps ops).counts.getD i 0 + (runOps ops2).counts.getD i 0) ∧
+      ((runOps ops).merge (runOps ops2)).total = (runOps ops).total + (runOps ops2).total := by
+  have hr := rep_runOps ops
+  refine ⟨hr.1, fun i hi => ?_, ?_, inRange_iff, fun ops2 => ?_⟩
+  · rw [hr.2.1 i, countP_held_index ops i hi]
+  · rw [hr.2.2.1, length_held]
+  · exact (merge_counts hr (rep_runOps ops2)).2
+
+/-- non-vacuity: five records (one of 2^32 µs: dropped), a reset in between -/
+def exOps : List HOp := [.record 7, .reset, .record 1000000, .record 300, .record 4294967296, .record 1003000, .record 5000000]
+example : sinceOps exOps = [5000000, 1003000, 4294967296, 300, 1000000] := by decide
+example : held exOps = [5000000, 1003000, 300, 1000000] := by decide
+example : (runOps exOps).total = 4 ∧ (runOps exOps).counts.getD 1780 0 = 2 ∧ (runOps exOps).counts.getD 278 0 = 1 := by
+  obtain ⟨_, h2, h3, _⟩ := C18_hist_counts exOps
+  refine ⟨?_, ?_, ?_⟩
+  · rw [h3]; decide +kernel
+  · rw [h2 1780 (by decide)]; decide +kernel
+  · rw [h2 278 (by decide)]; decide +kernel
+example : ((runOps exOps).merge (runOps [.record 300])).counts.getD 278 0 = 2 := by
+  rw [((C18_hist_counts exOps).2.2.2.2 [.record 300]).1 278, (C18_hist_counts exOps).2.1 278 (by decide),
+    (C18_hist_counts [.record 300]).2.1 278 (by decide)]
+  decide +kernel
+
+/-- **(b) equivalence classes**: for all values `u`, `v` (in particular below 2^32): `lowestEquivalentValue(v) ≤ v ≤
+    highestEquivalentValue(v)`; `countsIndexFor` is monotone; two values are counted at the same position iff they have
+    the same lowest equivalent value; a class is `highestEq - lowestEq + 1 = 2^bucketIdx(v)` wide, with
+    `(highestEq v - lowestEq v)·128 ≤ v < (highestEq v - lowestEq v + 1)·256` — the quantile the histogram reports is less
+    than `v/128` (0.79 %) away from a recorded value; below 256 µs the histogram is exact. -/
+theorem C18_hist_class (u v : Nat) :
+    (lowestEq v ≤ v ∧ v ≤ highestEq v) ∧
+    (u ≤ v → countsIndexFor u ≤ countsIndexFor v) ∧
+    (countsIndexFor u = countsIndexFor v ↔ lowestEq u = lowestEq v) ∧
+    (highestEq v - lowestEq v + 1 = 2 ^ bucketIdx v ∧
+      (highestEq v - lowestEq v) * 128 ≤ v ∧ v < (highestEq v - lowestEq v + 1) * 256) ∧
+    (v < 256 → lowestEq v = v ∧ highestEq v = v) := by
+  refine ⟨⟨lowestEq_le v, le_highestEq v⟩, countsIndexFor_mono, countsIndexFor_eq_iff u v, class_width v, fun h => ?_⟩
+  have h1 := (class_width v).1
+  rw [bucketIdx_small h] at h1
+  have := lowestEq_le v
+  have := le_highestEq v
+  simp at h1
+  omega
+
+/-- non-vacuity: one second (10^6 µs) lies in the class `[999424, 1003519]` (bucket 12, 4096 µs wide), counted at position 1780 -/
+example : lowestEq 1000000 = 999424 ∧ highestEq 1000000 = 1003519 ∧ countsIndexFor 1000000 = 1780 ∧ bucketIdx 1000000 = 12 := by
+  decide +kernel
+example : countsIndexFor 1003519 = countsIndexFor 999424 ∧ countsIndexFor 1003520 = 1781 ∧ countsIndexFor 999423 = 1779 := by
+  decide +kernel
+example : countsIndexFor 4294967295 = 3327 ∧ countsIndexFor 4294967296 = 3328 ∧ highestEq 4294967295 = 4294967295 := by
+  decide +kernel
+
+/-- **(c) rank**: after any history of one histogram, for a count `1 ≤ k ≤ totalCount` the value
+    `r = highestEquivalentValue(getValueFromIdxUpToCount(k))` — what `ValueAtPercentile` returns for a non-zero
+    percentile whose `countAtPercentile` is `k` — is the highest value equivalent to some held value; at least `k`
+    held values are `≤ r`; fewer than `k` held values lie below `lowestEquivalentValue(r)`: `r` is the class of the
+    `k`-th smallest held value.  For `k = 0` (an empty histogram, the percentile 0, or `q/100·total < 1/2`) the
+    result is 0 whatever has been recorded. -/
+theorem C18_quantile_rank (ops : List HOp) :
+    (∀ k, 1 ≤ k → k ≤ (runOps ops).total →
+      (∃ v ∈ held ops, (runOps ops).valueAtCount k false = highestEq v) ∧
+      k ≤ (held ops).countP (fun v => decide (v ≤ (runOps ops).valueAtCount k false)) ∧
+      (held ops).countP (fun v => decide (v < lowestEq ((runOps ops).valueAtCount k false))) < k) ∧
+    (∀ z, (runOps ops).valueAtCount 0 z = 0) :=
+  ⟨fun _ h1 h2 => valueAtCount_rank (rep_runOps ops) h1 h2, valueAtCount_zero _⟩
+
+/-- the exact-rational count of the float step stays inside the histogram: `countAtQ ≤ totalCount` for every percentile
+    (the code clamps it to 100), it is 0 for the percentile 0 and `totalCount` from 100 on -/
+theorem C18_quantile_count (num den total : Nat) (hd : 0 < den) :
+    countAtQ num den total ≤ total ∧ countAtQ 0 den total = 0 ∧ (100 * den ≤ num → countAtQ num den total = total) :=
+  ⟨countAtQ_le num den total hd, countAtQ_zero den total hd, countAtQ_full num den total hd⟩
+
+/-- non-vacuity: the median count of four held values is 2, and the second smallest of `held exOps` is one second -/
+example : countAtQ 500 10 4 = 2 ∧ countAtQ 999 10 4 = 4 ∧ countAtQ 10 10 4 = 0 ∧ countAtQ 2500 10 4 = 4 := by decide
+example : ∃ v ∈ held exOps, (runOps exOps).valueAtCount 2 false = highestEq v := by
+  have ht : (runOps exOps).total = 4 := by rw [(C18_hist_counts exOps).2.2.1]; decide +kernel
+  exact ((C18_quantile_rank exOps).1 2 (by decide) (by rw [ht]; decide)).1
+
+/-- … and the three clauses pin the value down: the count 2 over `held exOps = [5000000, 1003000, 300, 1000000]` gives the
+    class of one second, `highestEq 1000000 = 1003519` -/
+example : (runOps exOps).valueAtCount 2 false = 1003519 := by
+  have ht : (runOps exOps).total = 4 := by rw [(C18_hist_counts exOps).2.2.1]; decide +kernel
+  obtain ⟨⟨v, hv, e⟩, a2, a3⟩ := (C18_quantile_rank exOps).1 2 (by decide) (by rw [ht]; decide)
+  rw [e] at a2 a3 ⊢
+  have hh : held exOps = [5000000, 1003000, 300, 1000000] := by decide
+  rw [hh] at hv a2 a3
+  simp only [List.mem_cons, List.not_mem_nil, or_false] at hv
+  rcases hv with rfl | rfl | rfl | rfl
+  · exact absurd a3 (by decide +kernel)
+  · decide +kernel
+  · exact absurd a2 (by decide +kernel)
+  · decide +kernel
+
+/-- the same on what `LatencyAtQuantileMS` reads — the merge of the rolling histogram after any history of
+    `recordLatency` / `reset`: with `win` the microsecond values (below 2^32) of the latencies the ghost slots hold
+    (`C18_rolling_window`), `1 ≤ k ≤ totalCount`: the value is the class of the `k`-th smallest of `win`; and the
+    predicate's result is that value in whole milliseconds -/
+theorem C18_quantile_rank_rolling (es : List REv) :
+    (∀ k, 1 ≤ k → k ≤ (runR es).merged.total →
+      (∃ v ∈ vals (runG es).slots.flatten, (runR es).merged.valueAtCount k false = highestEq v) ∧
+      k ≤ (vals (runG es).slots.flatten).countP (fun v => decide (v ≤ (runR es).merged.valueAtCount k false)) ∧
+      (vals (runG es).slots.flatten).countP (fun v => decide (v < lowestEq ((runR es).merged.valueAtCount k false))) < k) ∧
+    (∀ kf num den, latencyAtQuantileMS kf (runR es) num den =
+      (runR es).merged.valueAtCount (kf num den (runR es).merged.total) (decide (num = 0)) / 1000) := by
+  obtain ⟨_, _, _, L, hL, hp⟩ := merged_counts (sim_run es)
+  refine ⟨fun k h1 h2 => ?_, fun kf num den => ?_⟩
+  · obtain ⟨⟨v, hv, e⟩, a2, a3⟩ := valueAtCount_rank hL h1 h2
+    exact ⟨⟨v, mem_of_countP_eq hp hv, e⟩, by rw [← hp]; exact a2, by rw [← hp]; exact a3⟩
+  · unfold latencyAtQuantileMS latencyOfMerged
+    exact us_to_ms _
+
+/-- **(d) the rolling window**: after any history of `recordLatency` / `reset` (any clock readings), with
+    `runG es` the explicit per-bucket lists (`Hist.stepG`: a record at `now` first rotates iff `now - lastRoll ≥ 10 s` —
+    once, however long the gap — emptying the next of the six slots and evicting its pairs, then puts `(now, latency)`
+    into the current slot; a reset empties all six):
+    every sub-histogram holds exactly the microsecond values of its slot; the merged histogram
+    holds exactly those of all six slots; and the pairs recorded since the last reset are (as multisets) the pairs in
+    the slots plus the pairs evicted by rotations.  So `Merged()` contains exactly the latencies recorded since the
+    last reset whose bucket has not been re-used by a later rotation. -/
+theorem C18_rolling_window (es : List REv) :
+    (runR es).idx = (runG es).idx ∧ (runR es).lastRoll = (runG es).lastRoll ∧
+    (runR es).buckets.length = 6 ∧ (runG es).slots.length = 6 ∧
+    (∀ j, j < 6 → ∀ i, ((runR es).buckets.getD j H.new).counts.getD i 0 =
+        (vals ((runG es).slots.getD j [])).countP (fun v => countsIndexFor v = i)) ∧
+    (∀ i, (runR es).merged.counts.getD i 0 = (vals (runG es).slots.flatten).countP (fun v => countsIndexFor v = i)) ∧
+    (runR es).merged.total = (vals (runG es).slots.flatten).length ∧
+    (sinceReset es).Perm ((runG es).slots.flatten ++ (runG es).dropped) := by
+  have hs := sim_run es
+  obtain ⟨m1, m2, m3, _⟩ := merged_counts hs
+  obtain ⟨s1, s2, _, s4, s5⟩ := hs
+  have hlen : (runG es).slots.length = 6 := (ginv_run es).2.1
+  refine ⟨s1, s2, s4, hlen, ?_, m2, m3, partition_run es⟩
+  intro j hj i
+  have : ∀ (bs : List H) (ss : List (List (Nat × Nat))), All₂ (fun h s => Rep h (vals s)) bs ss → ∀ j, j < bs.length →
+      Rep (bs.getD j H.new) (vals (ss.getD j [])) := by
+    intro bs ss h
+    induction h with
+    | nil => intro j hj; simp at hj
+    | cons hab _ ih =>
+      intro j hj
+      cases j with
+      | zero => simpa using hab
+      | succ j => simpa using ih j (by simpa using hj)
+  exact (this _ _ s5 j (by rw [s4]; exact hj)).2.1 i
+
+/-- **how recent is surely inside**: if no clock reading of the history exceeds `now`, every pair `(t, d)` recorded since
+    the last reset with `now ≤ t + 50 s` (five periods) is still in a slot, with its full multiplicity: the merged
+    histogram counts it.  An evicted pair satisfies `t + 50 s < lastRoll ≤ now`. -/
+theorem C18_rolling_recent (es : List REv) (now : Nat) (hnow : ∀ e ∈ es, e.time ≤ now)
+    (x : Nat × Nat) (hx : x ∈ sinceReset es) (hrecent : now ≤ x.1 + 5 * histPeriod) :
+    x ∈ (runG es).slots.flatten ∧ (sinceReset es).count x = (runG es).slots.flatten.count x ∧
+    ∀ y ∈ (runG es).dropped, y.1 + 5 * histPeriod < now := by
+  have hl := lastRoll_le es now hnow
+  have hd := (ginv_run es).2.2.2
+  have hnd : x ∉ (runG es).dropped := fun c => by
+    have := hd x c
+    omega
+  have hp := partition_run es
+  have hc := hp.count_eq x
+  rw [List.count_append, List.count_eq_zero_of_not_mem hnd] at hc
+  refine ⟨?_, by omega, fun y hy => by have := hd y hy; omega⟩
+  rcases List.mem_append.mp (hp.mem_iff.1 hx) with h | h
+  · exact h
+  · exact absurd h hnd
+
+/-- the natural-sounding bound "whatever was recorded in the last 60 s (6 buckets × 10 s) is inside" is **false**, and
+    the 50 s of `C18_rolling_recent` cannot be improved by a nanosecond: a latency recorded 1 ns before the second
+    bucket's period ends is evicted by the record 50 s + 1 ns later (times in ns since the zero time; the first record of a
+    fresh histogram always rotates, `lastRoll` being the zero time) -/
+def exEvict : List REv :=
+  [.record 100000000000 1000000,            -- t = 100 s: rotates into slot 1
+   .record 109999999999 2000000,            -- 1 ns before the period ends: same slot
+   .record 110000000000 3000000, .record 120000000000 3000000, .record 130000000000 3000000,
+   .record 140000000000 3000000, .record 150000000000 3000000,   -- five rotations: slots 2, 3, 4, 5, 0
+   .record 160000000000 3000000]            -- the sixth: slot 1 again, its two pairs are evicted
+
+theorem C18_rolling_window_60s_counterexample :
+    (∀ e ∈ exEvict, e.time ≤ 160000000000) ∧
+    (109999999999, 2000000) ∈ sinceReset exEvict ∧
+    160000000000 = 109999999999 + 5 * histPeriod + 1 ∧
+    (109999999999, 2000000) ∉ (runG exEvict).slots.flatten ∧
+    (runG exEvict).dropped = [(109999999999, 2000000), (100000000000, 1000000)] := by
+  decide
+
+/-- … and the merged histogram of the model indeed holds six of the eight latencies there -/
+example : (runR exEvict).merged.total = 6 := by
+  rw [(C18_rolling_window exEvict).2.2.2.2.2.2.1]; decide
+
+/-- in the other direction nothing bounds the age of what `Merged()` contains: rotation happens only when something is
+    recorded, once per record — after an idle hour the hour-old latency is still counted (and needs five more records at
+    least 10 s apart to leave) -/
+example : (runG [.record 100000000000 900000000, .record 3700000000000 1000000]).slots.flatten =
+    [(100000000000, 900000000), (3700000000000, 1000000)] ∧
+    (runG [.record 100000000000 900000000, .record 3700000000000 1000000]).dropped = [] := by decide
+example : (runR [.record 100000000000 900000000, .record 3700000000000 1000000]).merged.total = 2 := by
+  rw [(C18_rolling_window _).2.2.2.2.2.2.1]; decide
+
+/-- non-vacuity of `C18_rolling_recent`: the last six records of `exEvict` are within 50 s of its end -/
+example : (110000000000, 3000000) ∈ (runG exEvict).slots.flatten :=
+  (C18_rolling_recent exEvict 160000000000 (by decide) (110000000000, 3000000) (by decide) (by decide)).1
+
+/-- a reset in between: only what was recorded afterwards counts -/
+example : sinceReset [.record 100000000000 5000000, .reset 101000000000, .record 102000000000 7000000] = [(102000000000, 7000000)] ∧
+    (runG [.record 100000000000 5000000, .reset 101000000000, .record 102000000000 7000000]).slots =
+      [[(102000000000, 7000000)], [], [], [], [], []] := by decide
+
+end Histogram
+
+/-- **(e) the composite refines the oracle model**: a completion on the breaker-with-histogram is `CB.complete` on the
+    breaker with the oracle computed from the model histogram (after this latency was recorded), the histogram being reset
+    (at the instant of the check) exactly when the completion tripped; and over every trace — arrivals, records, checks,
+    completions in any interleaving — the breaker component and the observations of the composite are those of the oracle
+    model `CB.run` on the trace with the oracles filled in (`CBH.toTrace`), at the same instants.  Hence every theorem of
+    C05 / C12 / C18 about `CB.run`, `CB.step`, `CB.complete`, `CB.checkAndSet` applies to the composite. -/
+theorem C18_latency_oracle_refines (kf : CBH.KF) (c : Cfg) (s : Brk × Hist.Rolling) :
+    (∀ now code lat,
+      (CBH.completeH kf c s now code lat).1.1 = (complete c s.1 now code (CBH.oracleOf kf c (s.2.recordLatency now lat))).1 ∧
+      (CBH.completeH kf c s now code lat).2 = (complete c s.1 now code (CBH.oracleOf kf c (s.2.recordLatency now lat))).2 ∧
+      (CBH.completeH kf c s now code lat).1.2 =
+        (if (CBH.completeH kf c s now code lat).2 then (s.2.recordLatency now lat).reset now else s.2.recordLatency now lat)) ∧
+    (∀ q, (CBH.oracleOf kf c s.2).get q = if q ∈ c.cond.quantiles then CBH.latOf kf s.2 q else 0) ∧
+    (∀ es : List CBH.EvH,
+      (CBH.runH kf c s es).1.1 = (run c s.1 (CBH.toTrace kf c s es)).1 ∧
+      (CBH.runH kf c s es).2 = (run c s.1 (CBH.toTrace kf c s es)).2 ∧
+      (CBH.toTrace kf c s es).length = es.length) := by
+  refine ⟨fun now code lat => ⟨rfl, rfl, rfl⟩, fun q => ?_, fun es => ?_⟩
+  · rw [CBH.oracleOf_eq]
+    unfold Oracle.get
+    generalize c.cond.quantiles = qs
+    induction qs with
+    | nil => simp
+    | cons a qs ih =>
+      rw [List.map_cons, List.find?_cons]
+      by_cases h : a = q
+      · subst h; simp
+      · have h' : ¬ q = a := fun e => h e.symm
+        simp only [h, decide_false, List.mem_cons, h', false_or]
+        exact ih
+  · obtain ⟨h1, h2⟩ := CBH.runH_brk kf c es s
+    refine ⟨h1, h2, ?_⟩
+    have := congrArg List.length (CBH.toTrace_time kf c es s)
+    simpa using this
+
+/-- non-vacuity: `LatencyAtQuantileMS(50.0) > 100` with the exact-rational count; a completion with a latency of one
+    second evaluates (first check) and trips; the histogram is reset at that instant -/
+example : (CBH.completeH Hist.countAtQ ⟨1000, 1000, 100, .cmp .gt (.lat (.float 500 10)) (.int 100)⟩
+    (Brk.init, Hist.Rolling.new) (T0 + 5) 200 1000000000).2 =
+    (complete ⟨1000, 1000, 100, .cmp .gt (.lat (.float 500 10)) (.int 100)⟩ Brk.init (T0 + 5) 200
+      (CBH.oracleOf Hist.countAtQ ⟨1000, 1000, 100, .cmp .gt (.lat (.float 500 10)) (.int 100)⟩
+        (Hist.Rolling.new.recordLatency (T0 + 5) 1000000000))).2 :=
+  ((C18_latency_oracle_refines _ _ _).1 _ _ _).2.1
 
 end C18
